@@ -48,6 +48,12 @@ func reportGated(c *vf.Ctx, r gatedResult) {
 		return
 	}
 	c.Count("gated_workers_class:"+workerClass(r.Cfg.Workers), 1)
+	if r.Cfg.Kind == "watchers" || r.Cfg.Kind == "cstart" {
+		c.Count("schedules:"+r.Cfg.Kind, 1)
+		if r.Cfg.Kind == "cstart" {
+			c.Count("concurrent_start_schedules:"+r.Cfg.Variant, 1)
+		}
+	}
 	if r.Cfg.Kind == "allbusy" && r.AllBusy {
 		c.Count("allbusy_at_shutdown:"+workerClass(r.Cfg.Workers), 1)
 		if r.Workers > 2*runtime.NumCPU() {
@@ -530,6 +536,10 @@ func run(c *vf.Ctx) {
 
 	c.Require("evaluations", c.Pick(2000, 100000))
 	c.Require("gated_windows_entered", c.Pick(250, 3000))
+	c.Require("schedules:watchers", 16)
+	c.Require("concurrent_start_schedules:fresh", 8)
+	c.Require("concurrent_start_schedules:stopped", 8)
+	c.Require("concurrent_start_schedules:draining", 8)
 	c.Require("allbusy_at_shutdown_workers_gt_2ncpu", c.Pick(30, 100))
 	c.Require("allbusy_at_shutdown_workers_gt_2ncpu_tasks_call_pool", c.Pick(20, 80))
 	c.Require("allbusy_at_shutdown:2ncpu", 10)
